@@ -65,7 +65,11 @@ def quadratic_spline(
     min_bin_width=DEFAULT_MIN_BIN_WIDTH,
     min_bin_height=DEFAULT_MIN_BIN_HEIGHT,
 ):
-    if torch.min(inputs) < left or torch.max(inputs) > right:
+    if inverse:
+        domain_low, domain_high = bottom, top
+    else:
+        domain_low, domain_high = left, right
+    if torch.min(inputs) < domain_low or torch.max(inputs) > domain_high:
         raise InputOutsideDomain()
 
     if inverse:
